@@ -1,0 +1,128 @@
+//go:build verif
+
+package protocol
+
+// Verification-only instrumentation (build tag `verif`).  Nothing in this
+// file is compiled into normal builds; see verif_off.go for the stubs.
+
+import (
+	"runtime"
+	"sync/atomic"
+)
+
+// Kinds of trace events emitted by the engine.
+const (
+	VerifEvState       uint8 = 1  // stateLoop: state stored (A = state id), before the ready token is put
+	VerifEvTransReq    uint8 = 2  // stateLoop: transition request received (Msg)
+	VerifEvTransFail   uint8 = 3  // stateLoop: nextState refused the message
+	VerifEvEnq         uint8 = 4  // enqueueMessage: accounted (A = len, B = pendingSendBytes after)
+	VerifEvEnqOver     uint8 = 5  // enqueueMessage: pending send limit exceeded
+	VerifEvTokS        uint8 = 6  // sendLoop: token taken from sendReadyChan
+	VerifEvDeq         uint8 = 7  // sendLoop: message taken from sendQueueChan
+	VerifEvSeg         uint8 = 8  // sendLoop: segment about to be handed to the muxer (A = payload length)
+	VerifEvSegIn       uint8 = 9  // readLoop: segment payload appended to the read buffer (A = length)
+	VerifEvLim         uint8 = 10 // readLoop: message decoded, limit read (A = state id, B = limit)
+	VerifEvAdmit       uint8 = 11 // readLoop: message accounted (A = len, B = pendingRecvBytes after)
+	VerifEvTokR        uint8 = 12 // recvLoop: token taken from recvReadyChan
+	VerifEvHandler     uint8 = 13 // recvLoop: about to call the message handler
+	VerifEvDec         uint8 = 14 // recvLoop: pendingRecvBytes decremented (A = value after)
+	VerifEvSendErr     uint8 = 15 // SendError called
+	VerifEvSendErrFull uint8 = 16 // SendError: ErrorChan full, error discarded, protocol not stopped
+	VerifEvSendErrStop uint8 = 17 // SendError: error delivered, about to Stop
+	VerifEvExitSend    uint8 = 18 // sendLoop returned
+	VerifEvExitRecv    uint8 = 19 // recvLoop returned
+	VerifEvNote        uint8 = 20 // emitted by the test harness through VerifNote
+)
+
+// VerifEvent is one trace record.  Seq is a process-wide atomic sequence
+// number taken when the event is emitted; Gid identifies the goroutine.
+type VerifEvent struct {
+	Seq  uint64
+	Gid  uint64
+	Kind uint8
+	A, B uint64
+	Msg  Message
+	P    *Protocol
+}
+
+var (
+	verifSeq  atomic.Uint64
+	verifSink atomic.Pointer[func(VerifEvent)]
+)
+
+// VerifSetSink installs the trace sink (nil disables tracing).  The sink is
+// called synchronously on the goroutine that emits the event.
+func VerifSetSink(f func(VerifEvent)) {
+	if f == nil {
+		verifSink.Store(nil)
+		return
+	}
+	verifSink.Store(&f)
+}
+
+func verifGoid() uint64 {
+	var buf [64]byte
+	n := runtime.Stack(buf[:], false)
+	// "goroutine 123 [running]:"
+	var id uint64
+	for _, ch := range buf[10:n] {
+		if ch < '0' || ch > '9' {
+			break
+		}
+		id = id*10 + uint64(ch-'0')
+	}
+	return id
+}
+
+func (p *Protocol) verifTrace(kind uint8, a, b uint64, m Message) {
+	f := verifSink.Load()
+	if f == nil {
+		return
+	}
+	(*f)(VerifEvent{
+		Seq: verifSeq.Add(1), Gid: verifGoid(), Kind: kind, A: a, B: b, Msg: m, P: p,
+	})
+}
+
+// VerifNote lets the harness put its own marker into the same sequence.
+func (p *Protocol) VerifNote(a, b uint64, m Message) {
+	p.verifTrace(VerifEvNote, a, b, m)
+}
+
+// VerifCurrentState returns the current protocol state.
+func (p *Protocol) VerifCurrentState() State { return p.getCurrentState() }
+
+// VerifPendingRecvBytes returns pendingRecvBytes and the number of tracked sizes.
+func (p *Protocol) VerifPendingRecvBytes() (int, int) {
+	p.pendingBytesMu.Lock()
+	defer p.pendingBytesMu.Unlock()
+	return p.pendingRecvBytes, len(p.pendingRecvSizes)
+}
+
+// VerifPendingSendBytes returns pendingSendBytes.
+func (p *Protocol) VerifPendingSendBytes() int {
+	p.pendingBytesMu.Lock()
+	defer p.pendingBytesMu.Unlock()
+	return p.pendingSendBytes
+}
+
+// VerifConstants are the engine constants the model is instantiated with.
+type VerifConstants struct {
+	MaxMessagesPerSegment int
+	MaxReadBufferSize     int
+	SendQueueCap          int
+	RecvQueueCap          int
+	DefaultRecvQueueSize  int
+}
+
+// VerifConsts reports the constants (queue capacities are those of the
+// started protocol; 0 before Start).
+func (p *Protocol) VerifConsts() VerifConstants {
+	return VerifConstants{
+		MaxMessagesPerSegment: maxMessagesPerSegment,
+		MaxReadBufferSize:     maxReadBufferSize,
+		SendQueueCap:          cap(p.sendQueueChan),
+		RecvQueueCap:          cap(p.recvQueueChan),
+		DefaultRecvQueueSize:  DefaultRecvQueueSize,
+	}
+}
